@@ -188,6 +188,10 @@ impl<'a> TryFrom<&'a str> for Header<'a> {
 
     fn try_from(input: &'a str) -> Result<Self, Self::Error> {
         let length = match input.find(CARRIAGE_RETURN) {
+            // A line whose CR comes this late cannot end within the limit, whatever follows.
+            Some(suffix) if suffix + PROTOCOL_SUFFIX.len() > MAX_LENGTH => {
+                return Err(ParseError::HeaderTooLong)
+            }
             Some(suffix) => min(suffix + PROTOCOL_SUFFIX.len(), input.len()),
             None if input.len() >= MAX_LENGTH => return Err(ParseError::HeaderTooLong),
             None => input.len(),
@@ -204,6 +208,10 @@ impl<'a> TryFrom<&'a [u8]> for Header<'a> {
     fn try_from(input: &'a [u8]) -> Result<Self, Self::Error> {
         let position = input.iter().position(|&c| CARRIAGE_RETURN == (c as char));
         let length = match position {
+            // A line whose CR comes this late cannot end within the limit, whatever follows.
+            Some(suffix) if suffix + PROTOCOL_SUFFIX.len() > MAX_LENGTH => {
+                return Err(ParseError::HeaderTooLong.into())
+            }
             Some(suffix) => min(suffix + PROTOCOL_SUFFIX.len(), input.len()),
             None if input.len() >= MAX_LENGTH => return Err(ParseError::HeaderTooLong.into()),
             None => input.len(),
